@@ -210,6 +210,28 @@ def eq_covers_slots(prog: Program, res, rule: str, ci: ClassInfo, *, exceptions:
     res.touch(eq)
     read = set()
     generic = False
+    # attribute reads that only exist on the symbolic store: getattr(self, name) over a literal / module-level table of
+    # names, in __eq__ itself or in a private (generator) method it delegates to
+    try:
+        from .. import symx as _sx
+
+        scope_ = [eq] + [m_ for x in walk_no_nested(eq.node) if isinstance(x, ast.Attribute) and isinstance(x.value, ast.Name) and x.value.id == "self" for m_ in [prog.find_method(ci, x.attr)] if m_ is not None and not m_.is_property and m_ is not eq]
+        for f_ in scope_:
+            if not any(isinstance(y, ast.Call) and isinstance(y.func, ast.Name) and y.func.id == "getattr" for y in ast.walk(f_.node)):
+                continue
+            for p_ in _sx.explore(prog, f_, inline=_sx.inline_private_helpers(prog), max_paths=300):
+                exprs_ = [ev.expr for ev in p_.events if ev.expr is not None] + [t for t, _pl, _n in p_.conds] + ([p_.value] if p_.value is not None else [])
+                for e_ in exprs_:
+                    for y in ast.walk(e_):
+                        if isinstance(y, ast.Attribute) and isinstance(y.value, ast.Name):
+                            read.add(y.attr)
+                            m3 = prog.find_method(ci, y.attr)
+                            if m3 is not None and m3.is_property:
+                                for z in walk_no_nested(m3.node):
+                                    if isinstance(z, ast.Attribute) and isinstance(z.value, ast.Name) and z.value.id == "self":
+                                        read.add(z.attr)
+    except Exception:  # noqa: BLE001 - the syntactic collection below still applies
+        pass
     for x in walk_no_nested(eq.node):
         if isinstance(x, ast.Attribute):
             read.add(x.attr)
